@@ -160,12 +160,19 @@ impl Variant {
                     return self.float_value.unwrap() as i64;
                 }
 
+                if let Ok(i) = self.string_value.parse::<i64>() {
+                    return i;
+                }
+
                 let int_value = self.string_value.parse::<usize>();
                 match int_value {
                     Ok(i) => i as i64,
                     _ => match parse_filesize(&self.string_value) {
                         Some(size) => size as i64,
-                        _ => 0,
+                        _ => match self.string_value.parse::<f64>() {
+                            Ok(f) => f as i64,
+                            _ => 0,
+                        },
                     },
                 }
             }
